@@ -44,6 +44,31 @@ def site_call_obligations(fv, node, st):
         fv.bound_env.pop()
 
 
+def site_return_obligations(fv, s, st, sv, pre=None):
+    """site_return("<text of the returned expression>", name, expr): obligation in the state of each `return <text>`, with
+    `value` bound to the returned value.  Once a contract has such clauses EVERY return statement of the function must be
+    listed (a return of another form would bypass them): an unlisted one is a failed obligation."""
+    if fv.c is None or not getattr(fv.c, 'site_returns', None) or fv.binders or fv.bound_env:
+        return
+    txt = ast.unparse(s.value) if s.value is not None else 'None'
+    txt = ' '.join(txt.split())
+    hits = [(n, e) for t, n, e in fv.c.site_returns if ' '.join(t.split()) == txt]
+    if not hits:
+        fv.oblige(st, 'site[return %s]/unlisted-return' % txt[:60], z3.BoolVal(False), s)
+        return
+    fv.bound_env.append({'value': sv})
+    try:
+        for n, e in hits:
+            # a clause that does not mention `value` speaks about the state in which the return statement is reached
+            # (before the returned expression -- possibly a call with effects -- is evaluated)
+            uses_value = any(isinstance(x, ast.Name) and x.id == 'value' for x in ast.walk(e))
+            at = st if (uses_value or pre is None) else pre
+            g = fv.truthy(fv.ev(e, at, True))
+            fv.oblige(at, 'site[return %s]/inv[%s]' % (txt[:60], n), g, s)
+    finally:
+        fv.bound_env.pop()
+
+
 def eval_call(fv, node, st, spec):
     if not spec and fv.c is not None and fv.c.site_calls and not fv.binders and not fv.bound_env:
         site_call_obligations(fv, node, st)
@@ -102,7 +127,11 @@ def enclosing_quals(fv):
     if not fv.qual:
         return []
     parts = fv.qual.split('.')
-    return ['.'.join(parts[:i]) for i in range(len(parts) - 1, 1, -1)]
+    # enclosing functions / classes only: the module itself is not a closure (a sibling module-level function called without
+    # an optional argument gets the DEFAULT of that parameter, not the caller's local of the same name)
+    mod = fv.module.name if fv.module is not None else None
+    return [q for q in ('.'.join(parts[:i]) for i in range(len(parts) - 1, 1, -1))
+            if mod is None or (q != mod and q.startswith(mod + '.'))]
 
 
 def resolve_name(fv, name):
@@ -1136,6 +1165,14 @@ def set_method(fv, node, st, spec, recv, meth):
             other = P.set_of_seq(seq)
         nty = oty if ety.is_any else T.join(ety, oty)
         store_back(fv, tgt, SV(P.sunion(s, other), T.Set(nty)), st, spec, node)
+        return SV(P.none, NONE)
+    if meth == 'discard':
+        # the identical element is removed.  For objects with a user-defined __eq__ Python also removes an equal element
+        # and `add` keeps an equal element that is already present: the modelled set is a SUPERSET of the run-time set,
+        # which is sound for universal and negative membership statements (the only ones contracts may make about sets
+        # of such objects; positive membership must be stated modulo ==)
+        x = fv.ev(node.args[0], st, spec)
+        store_back(fv, tgt, SV(P.sdiff(s, P.sadd(P.set_empty, box(x))), recv.ty), st, spec, node)
         return SV(P.none, NONE)
     if meth in ('intersection', 'union', 'difference'):
         x = fv.ev(node.args[0], st, spec)
